@@ -1,7 +1,8 @@
 /- line-protocol handlers for the C19 models (Model/PatchMap*.lean, UriTemplate.lean, PatchGroup.lean) -/
 import FontVerif.Model.PatchGroup
+import FontVerif.Model.PatchMapBytes
 namespace FontVerif.Drv.C19
-open FontVerif FontVerif.PatchMap FontVerif.UriTemplate FontVerif.PatchGroup
+open FontVerif FontVerif.PatchMap FontVerif.UriTemplate FontVerif.PatchGroup FontVerif.PatchMapBytes
 
 /-! ## token parser -/
 
@@ -323,8 +324,37 @@ def pInfo : P IntersectionInfo := do
 def showOrdering : Ordering → String
   | .lt => "lt" | .eq => "eq" | .gt => "gt"
 
+/-- `N` = the font has no such table, `B <hex>` = its bytes -/
+def pRawTable : P RawTable := do
+  match (← tok) with
+  | "N" => pure .absent
+  | "B" => do let b ← pHex; pure (.bytes b)
+  | _ => failure
+
+def brStr {α : Type} (f : α → String) : BR α → String
+  | .trap => "trap"
+  | .err e => e
+  | .ok a => f a
+
 def handle (cmd : String) (args : List String) : Option String :=
   match cmd with
+  | "f2b" =>
+    -- the hook `format2_entries(font, iftx)` on raw table bytes: absent / unreadable header =
+    -- NullOffset, a format-1 table = InvalidFormat
+    runP (do
+      let iftx ← pBool
+      let d ← pHex
+      if !tablePresent (.bytes d) then pure "err:NullOffset" else
+      if HandRead.readAt d 0 1 = some 1 then pure "err:InvalidFormat" else
+      pure (brStr (fun es => showList (es.map showEntry)) (decodeF2Bytes (if iftx then .iftx else .ift) d))) args
+  | "isectb" =>
+    runP (do
+      let d ← pDef
+      let maxp ← pNat
+      let cmap ← pList pPair
+      let a ← pRawTable
+      let b ← pRawTable
+      pure (brStr (fun us => showList (us.map showPatchUri)) (intersectingPatchesBytes a b maxp cmap d))) args
   | "f2dec" =>
     runP (do
       let iftx ← pBool
